@@ -20,7 +20,8 @@ import (
 
 func init() { register("c06-concurrent", "C06", c06Concurrent) }
 
-var c06Weights = [][]float64{{0.1, 0.9}, {0.2, 0.3, 0.5}, {0.05, 0, 0}, {0.6, 0.25, 0.15}, {0.01, 0.99}, {0.3333, 0.3333, 0.3334}, {0.5, 0, 0, 0}, {0.7, 0.2, 0, 0.1}}
+var c06Weights = [][]float64{{0.1, 0.9}, {0.2, 0.3, 0.5}, {0.05, 0, 0}, {0.6, 0.25, 0.15}, {0.01, 0.99}, {0.3333, 0.3333, 0.3334}, {0.5, 0, 0, 0}, {0.7, 0.2, 0, 0.1},
+	{0, 0}, {0, 0, 0}, {0, 0, 0, 0, 0, 0, 0}} // the last three: short rings of equal targets, the cursor wraps every few lookups
 
 const c06Globs = 48
 
@@ -96,11 +97,16 @@ func c06Concurrent(c *ctx) {
 		counts := make([]map[string]*atomic.Int64, len(c06Weights))
 		ringLen := make([]int, len(c06Weights))
 		slots := make([]map[string]int, len(c06Weights))
+		cycles := make([]int, len(c06Weights))
 		for k := range c06Weights {
 			counts[k] = map[string]*atomic.Int64{}
 			slots[k] = map[string]int{}
 			r0 := t[fmt.Sprintf("w%d.test", k)][0]
 			ringLen[k] = len(r0.VerifRing())
+			cycles[k] = 2
+			if ringLen[k] > 0 && ringLen[k] < 3000 {
+				cycles[k] = (6000 + ringLen[k] - 1) / ringLen[k] // short rings: thousands of wrap-arounds
+			}
 			for _, x := range r0.VerifRing() {
 				slots[k][x.URL.Host]++
 			}
@@ -116,10 +122,10 @@ func c06Concurrent(c *ctx) {
 			go func(g int) {
 				defer wg.Done()
 				gc := gcs[g%2]
-				// goroutine g performs lookups number g, g+64, ... of 2*ringLen per weighted route: two full cycles in total
+				// goroutine g performs lookups number g, g+64, ... of cycles*ringLen per weighted route: whole cycles in total
 				for k := range c06Weights {
 					host := fmt.Sprintf("w%d.test", k)
-					for i := g; i < 2*ringLen[k]; i += G {
+					for i := g; i < cycles[k]*ringLen[k]; i += G {
 						done := mark(0, g, i)
 						req := &http.Request{Host: host, URL: &url.URL{Path: fmt.Sprintf("/g%d/i%d", g, i)}, Header: http.Header{}, RemoteAddr: fmt.Sprintf("10.%d.%d.1:999", g, i%250)}
 						var x *route.Target
@@ -152,9 +158,9 @@ func c06Concurrent(c *ctx) {
 		}
 		for k := range c06Weights {
 			for h, n := range counts[k] {
-				want := int64(2 * slots[k][h])
+				want := int64(cycles[k] * slots[k][h])
 				if n.Load() != want {
-					c.R.Violate("c06:rr-share-not-exact", fmt.Sprintf("round %d GOMAXPROCS %d route w%d.test: target %s picked %d times in %d lookups, exact share is %d (ring %d, slots %d)", round, procs, k, h, n.Load(), 2*ringLen[k], want, ringLen[k], slots[k][h]), map[string]any{"route": k})
+					c.R.Violate("c06:rr-share-not-exact", fmt.Sprintf("round %d GOMAXPROCS %d route w%d.test: target %s picked %d times in %d lookups, exact share is %d (ring %d, slots %d)", round, procs, k, h, n.Load(), cycles[k]*ringLen[k], want, ringLen[k], slots[k][h]), map[string]any{"route": k})
 				}
 			}
 		}
@@ -376,15 +382,21 @@ func c06ViaProxy(c *ctx, hp, hpg *proxy.HTTPProxy, g, i int, failed *atomic.Bool
 // slots, checked as a fetch-and-increment counter (also catches real-time order violations).
 func c06FetchInc(c *ctx) {
 	nh := c.scale(c.pick(400, 8000))
-	var b strings.Builder
-	for i := 0; i < 64; i++ {
-		fmt.Fprintf(&b, "route add s fi.test/ http://10.5.0.%d:80/\n", i)
+	// ring lengths: 64 (a history of 48 picks never wraps: outputs are unique) and short rings that wrap many times
+	ringLens := []int{64, 3, 2, 5, 7}
+	scripts := map[int]string{}
+	for _, L := range ringLens {
+		var b strings.Builder
+		for i := 0; i < L; i++ {
+			fmt.Fprintf(&b, "route add s fi.test/ http://10.5.0.%d:80/\n", i)
+		}
+		scripts[L] = b.String()
 	}
-	script := b.String()
+	L := 64
 	model := porcupine.Model{
 		Init: func() any { return 0 },
 		Step: func(st, in, out any) (bool, any) {
-			return out.(int) == st.(int)%64, st.(int) + 1
+			return out.(int) == st.(int)%in.(int), st.(int) + 1
 		},
 		DescribeOperation: func(in, out any) string { return fmt.Sprintf("pick()->slot %d", out.(int)) },
 	}
@@ -392,11 +404,17 @@ func c06FetchInc(c *ctx) {
 	start := time.Now()
 	var okH, bad, unk int64
 	for h := 0; h < nh; h++ {
-		t, err := newTable(script)
+		L = ringLens[h%len(ringLens)]
+		t, err := newTable(scripts[L])
 		if err != nil {
 			c.R.Inconcl("fetchinc table: %v", err)
 			return
 		}
+		if n := len(t["fi.test"][0].VerifRing()); n != L {
+			c.R.Inconcl("fetchinc: ring of %d equal targets has %d slots", L, n)
+			return
+		}
+		c.R.Count(fmt.Sprintf("fetchinc_histories_ring%d", L), 1)
 		idx := map[string]int{}
 		for i, x := range t["fi.test"][0].VerifRing() {
 			idx[x.URL.Host] = i
@@ -413,7 +431,7 @@ func c06FetchInc(c *ctx) {
 					x := t.LookupHost("fi.test", pick)
 					t1 := int64(time.Since(start))
 					mu.Lock()
-					ops = append(ops, porcupine.Operation{ClientId: g, Input: 0, Call: t0, Output: idx[x.URL.Host], Return: t1})
+					ops = append(ops, porcupine.Operation{ClientId: g, Input: L, Call: t0, Output: idx[x.URL.Host], Return: t1})
 					mu.Unlock()
 				}
 			}(g)
